@@ -309,6 +309,14 @@ func buildScenario(kind string, r *rng, tier string) *scenario {
 			sc.sheets = append(sc.sheets, fmt.Sprintf("Pic%d", t+1))
 		}
 	}
+	if kind == "w-sst" {
+		// every goroutine has its own worksheet; lock-step rounds in which each writes a string nobody wrote before
+		sc.g, nops, sc.procs, sc.lockstep = 8+r.intn(5), 24, 8, true
+		sc.sheets = []string{"Sheet1"}
+		for t := 1; t < sc.g; t++ {
+			sc.sheets = append(sc.sheets, fmt.Sprintf("Str%d", t+1))
+		}
+	}
 	if kind == "sheetrow" {
 		if sc.g < 6 {
 			sc.g = 6
@@ -402,6 +410,12 @@ func buildScenario(kind string, r *rng, tier string) *scenario {
 				kindSel = "getval"
 			case "w-media": // witness: every goroutine adds images nobody else has to its own, prepared sheet
 				kindSel = "addpic"
+			case "w-sst": // witness: NEW shared strings from every goroutine, each on its own worksheet (setSharedString: append + index)
+				sheet = sc.sheets[t%len(sc.sheets)]
+				private = true
+				ck = i // one fresh cell per round; the final-state oracle reads every one of them back
+				cell = cellName(ck)
+				kindSel, force = "setval", "newstr"
 			case "w-ctypes": // witness: first AddPicture calls on a reopened workbook (lazy content-types decode)
 				kindSel = "addpic"
 			case "w-getpic": // witness: GetPictures while the first picture of the sheet is added
@@ -421,6 +435,10 @@ func buildScenario(kind string, r *rng, tier string) *scenario {
 				if force == "duration" {
 					g.uniq++
 					v, d = time.Duration(g.uniq)*time.Second+time.Duration(g.uniq%7)*time.Hour, "duration"
+				}
+				if force == "newstr" {
+					g.uniq++
+					v, d = fmt.Sprintf("sst-%d-%d-%d", t, i, g.uniq), "string-new"
 				}
 				if kind == "w-time" || force == "time" {
 					g.uniq++
@@ -1393,7 +1411,7 @@ var firstTouch = []string{"setstyle", "setval", "settime", "getval", "addpic", "
 
 // witness scenarios run first on every run: each hammers one pair of functions for which the
 // model predicts (or predicted, before a fix) unsynchronised access
-var witnessKinds = []string{"w-time", "w-fmt", "w-setstyle", "w-colstyle", "formulas", "reopen", "w-getpic", "w-row", "w-ctypes", "w-media", "spill", "w-first", "w-rels"}
+var witnessKinds = []string{"w-time", "w-fmt", "w-setstyle", "w-colstyle", "formulas", "reopen", "w-getpic", "w-row", "w-ctypes", "w-media", "spill", "w-first", "w-rels", "w-sst"}
 
 func main() {
 	seed := flag.Uint64("seed", 1, "")
